@@ -7,6 +7,16 @@ from props import c17_gen as g
 from props.c17_util import *
 
 
+RULES = ["executable_definitions", "operation_name_unique", "lone_anonymous", "subscription_single_root",
+         "fields_defined", "fields_merge", "leaf_selections", "argument_names", "argument_unique",
+         "required_arguments", "fragment_name_unique", "fragment_type_exists", "fragment_on_composite",
+         "fragments_used", "spread_target_defined", "no_fragment_cycles", "spread_possible",
+         "values_correct_type", "input_field_names", "input_field_unique", "input_required_fields",
+         "variable_unique", "variables_input_types", "variables_defined", "variables_used",
+         "variable_usages_allowed", "directives_defined", "directive_locations", "directives_unique",
+         "root_operation_defined", "subscription_no_skip_include"]
+
+
 def gen_cases(ctx):
     rng = ctx.rng
     quick = ctx.tier == "quick"
@@ -15,12 +25,14 @@ def gen_cases(ctx):
     for si in range(nsch):
         sch = g.gen_schema(rng)
         st = sch.text()
-        for _ in range(25 if quick else 60):
+        for _ in range(20 if quick else 60):
             doc = g.gen_doc(rng, sch)
             cases.append({"schema": st, "doc": g.doc_str(doc), "label": "valid-by-construction", "ast": doc})
-            if _ < (6 if quick else 20):
+            if _ < (4 if quick else 20):
                 for label, m in g.mutate(rng, sch, doc):
                     cases.append({"schema": st, "doc": g.doc_str(m), "label": label, "ast": m})
+        for label, m in g.directed(rng, sch, 12 if quick else 60):
+            cases.append({"schema": st, "doc": g.doc_str(m), "label": label, "ast": m})
     return cases
 
 
@@ -37,6 +49,26 @@ def run(ctx):
     for c, io, mo in rows:
         lab[(c["label"], first_word(mo))] += 1
     ctx.cov["by_label"] = {f"{k[0]}:{k[1]}": v for k, v in sorted(lab.items())}
+    # per rule: cases that violate it alone ("in isolation"), together with others, and that satisfy it
+    alone, together = Counter(), Counter()
+    nvalid = 0
+    for c, io, mo in rows:
+        if mo == "valid":
+            nvalid += 1
+            continue
+        rules = mo.split(" ", 1)[1].split(",")
+        for r in rules:
+            (alone if len(rules) == 1 else together)[r] += 1
+    ctx.cov["per_rule"] = {r: {"violated_alone": alone[r], "violated_with_others": together[r],
+                               "satisfied": len(rows) - alone[r] - together[r]} for r in RULES}
+    ctx.cov["spec_valid"] = nvalid
+    ctx.cov["spec_invalid"] = len(rows) - nvalid
+    kinds = Counter()
+    for c, io, mo in rows:
+        if io.startswith("invalid "):
+            for k in io.split(" ", 1)[1].split(","):
+                kinds[k] += 1
+    ctx.cov["impl_diagnostic_kinds"] = dict(sorted(kinds.items()))
     return ctx.finish(props)
 
 
